@@ -11,7 +11,11 @@ Rel4b == <<TRUE, FALSE, TRUE, TRUE>>
 Blk4 == << <<2>>, <<4, 3>> >>
 Blk4b == << <<1, 4>>, <<2>> >>
 NoFix == {}
-CodeFix == {"reannounce"}
-AllFix == {"reannounce", "race"}
-View == <<mp, idx, un, st, q, c, nblk, clock, arr, restarts, checks, aborted>>
+CodeFix == {"reannounce", "staleproof", "neverboth"}     \* the repairs made in the code (fix: commits 11f1c4b, 2a4d66a, 9c74d8c)
+OldFix == {"reannounce"}
+AllFix == {"reannounce", "race", "staleproof", "neverboth"}
+View == <<mp, idx, un, st, q, c, nblk, clock, arr, restarts, checks, aborted, ready, orphd>>
+\* reorganisation universe: 1 relevant, 2 conflicts with 1, 3 independent; block 1 = <<1>>, its replacement <<1, 3>> or <<2>>
+BlkR == << <<1>>, <<1, 3>> >>
+BlkR2 == << <<1, 3>>, <<2>> >>
 ====
